@@ -35,7 +35,7 @@ Lemma fill_cases b d : no_fail (sched d) ->
   match bw_fill_buf b d with
   | FillOk n b' d' => exists bs, length bs = n /\ rest d = bs ++ rest d' /\ win b' = win b ++ bs /\
         cap b' = cap b /\ bw_position b' = bw_position b /\ no_fail (sched d') /\
-        (n = 0 -> cap b = 0 \/ rest d = []) /\ (cap b = 0 \/ length (win b') <= cap b)
+        (n = 0 -> cap b = 0 \/ (rest d = [] /\ length (win b) < cap b)) /\ (cap b = 0 \/ length (win b') <= cap b)
   | FillIo _ _ => False
   | FillFull _ _ => 0 < cap b <= length (win b)
   end.
@@ -52,7 +52,7 @@ Proof.
       split; [unfold bw_position; cbn [prior consumed]; lia|]. split.
       * unfold rd_read in Hrd. destruct (match sched d with [] => _ | e :: _ => e end); [|discriminate].
         inversion Hrd; subst. cbn [sched]. intros Hin. apply Hnf. destruct (sched d); [exact Hin|right; exact Hin].
-      * split; [intros H0; destruct (Hz H0) as [Hf|Hr]; [lia|right; exact Hr]|].
+      * split; [intros H0; destruct (Hz H0) as [Hf|Hr]; [lia|right; split; [exact Hr|lia]]|].
         right. rewrite app_length. lia.
     + unfold rd_read in Hrd. destruct (sched d) as [|ev sc] eqn:Es; [discriminate|].
       destruct ev; [discriminate|]. apply Hnf. left. reflexivity.
@@ -85,7 +85,7 @@ Lemma refill_fill input b d bom c :
   | FillOk n b2 d2 => exists bs, length bs = n /\ rest d = bs ++ rest d2 /\ win b2 = cb ++ bs /\
         cap b2 = cap b /\ bw_position b2 = bw_position b + (length (win b) - c) /\
         (forall bom', rok input (mkreader b2 d2 bom')) /\
-        (n = 0 -> cap b = 0 \/ rest d = [])
+        (n = 0 -> cap b = 0 \/ (rest d = [] /\ c < cap b))
   | FillIo _ _ => False
   | FillFull _ _ => 0 < cap b <= c
   end.
@@ -100,7 +100,8 @@ Proof.
   - destruct H as (bs & H1 & H2 & H3 & H4 & H5 & H6 & H7 & H8). exists bs.
     split; [exact H1|]. split; [exact H2|]. split; [exact H3|]. split; [exact H4|].
     split; [rewrite H5; unfold bw_position, b1; cbn [prior consumed]; lia|].
-    split; [|exact H7]. intros bom'. split; [exact (proj1 Hp)|]. split; [exact H6|].
+    split; [|intros H0; destruct (H7 H0) as [H9|[H9 H10]]; [left; exact H9|right; split; [exact H9|unfold b1 in H10; cbn [win cap] in H10; lia]]].
+    intros bom'. split; [exact (proj1 Hp)|]. split; [exact H6|].
     cbn [rbw]. rewrite H4. exact H8.
   - unfold b1 in H. cbn [cap win] in H. lia.
 Qed.
@@ -193,7 +194,7 @@ Proof.
   - (* end of the stream *)
     destruct bs; [|discriminate]. rewrite app_nil_r in Hw2. cbn [app] in Hsplit.
     assert (Hr : rest d = []).
-    { destruct (Hzero eq_refl) as [H0|H0]; [|exact H0]. destruct Hcap as [[_ H1]|[H1 _]]; [exact H1|lia]. }
+    { destruct (Hzero eq_refl) as [H0|[H0 _]]; [|exact H0]. destruct Hcap as [[_ H1]|[H1 _]]; [exact H1|lia]. }
     assert (Hr2 : rest d2 = []) by congruence.
     rewrite Hr, app_nil_r. clear Hneed.
     destruct st; cbn [pend patom] in *.
